@@ -157,3 +157,42 @@ def write_replay(pid, seed, scenario, viol, dig, minimised):
             default=_default,
         )
     return path
+
+
+# ----------------------------------------------------------------------------------------
+# scratch directories: nothing may be left under /tmp.  Pool workers are terminated without running atexit handlers, so
+# the PARENT creates one base directory per invocation (exported as VERIF_TMP), every worker creates its directories
+# below it, and the parent removes the base in a finally block.
+
+def scratch_dir(prefix):
+    import atexit
+    import shutil
+    import tempfile
+
+    base = os.environ.get("VERIF_TMP")
+    if base and os.path.isdir(base):
+        return tempfile.mkdtemp(prefix=prefix, dir=base)
+    d = tempfile.mkdtemp(prefix=prefix)
+    atexit.register(shutil.rmtree, d, True)
+    return d
+
+
+class ScratchBase:
+    """Context manager used by every entry point of sim.main."""
+
+    def __enter__(self):
+        import tempfile
+
+        self.prev = os.environ.get("VERIF_TMP")
+        self.path = tempfile.mkdtemp(prefix="jtv_run_")
+        os.environ["VERIF_TMP"] = self.path
+        return self.path
+
+    def __exit__(self, *a):
+        import shutil
+
+        shutil.rmtree(self.path, ignore_errors=True)
+        if self.prev is None:
+            os.environ.pop("VERIF_TMP", None)
+        else:
+            os.environ["VERIF_TMP"] = self.prev
